@@ -167,8 +167,8 @@ func (e *Exec) guardRet(s *State, x *ssa.Call, t string, lim string, msg string,
 		return nil, false
 	}
 	if e.overflowAsObligation {
-		// do not explore the panic side; record that it exists (final query decides whether it is feasible at all)
-		e.submitFinal(s, "overflow", "overflow-path-unexplored", append(append([]string{}, s.PC...), out), nil)
+		// do not explore the panic side (inside a message handler it aborts the transaction); count it as not explored
+		e.stats["overflow-paths-not-explored"]++
 		s.PC = append(s.PC, in)
 		top(s).Regs[x] = mk(t)
 		return nil, false
